@@ -348,7 +348,7 @@ def _model_evaluator(check: Check):
   iff, sff, fff = (FuncFlow.of(repo, x) for x in (t.init, t.step, t.final))
   for x in (t.init, t.step, t.final):
     check.analysed(x)
-  init_ok = any(isinstance(e, ast.DictComp) and isinstance(e.value, ast.Call) and txt(e.value.func).endswith('.zero')
+  init_ok = any(any(isinstance(x, ast.Call) and isinstance(x.func, ast.Attribute) and x.func.attr == 'zero' and not x.args for x in iff.deep_walk(e))
                 for _, rv in iff.returns() for el in ([rv.elts[1]] if isinstance(rv, ast.Tuple) and len(rv.elts) == 2 else [])
                 for e in iff.expand(el))
   step_ok = False
@@ -356,8 +356,11 @@ def _model_evaluator(check: Check):
     if wmean.repo_fn(sff, c) == f'{MODELS}:_evaluate_model_step':
       b = call_args(c, ['model', 'params', 'batch', 'stat'])
       step_ok = sff.param_of(b.get('batch')) == t.step.positional_params[1] and isinstance(b.get('stat'), ast.Name)
-  fin_ok = any(isinstance(rv, ast.DictComp) and isinstance(rv.value, ast.Call) and isinstance(rv.value.func, ast.Attribute) and
-               rv.value.func.attr == 'result' for _, rv in fff.returns())
+  # every value returned by final is built from <stat>.result() of the items of the state's statistics (a dict comprehension, dict(...)
+  # of pairs, or a loop): no raw statistic leaves the evaluator
+  fin_ok = bool(fff.returns()) and all(rv is not None and any(
+      isinstance(x, ast.Call) and isinstance(x.func, ast.Attribute) and x.func.attr == 'result' and not x.args for x in fff.deep_walk(rv))
+                                        for _, rv in fff.returns())
   check.ob('R-STAT.loop', t.owner, 'ModelEvaluator triple', init_ok and step_ok and fin_ok,
            f'per-client evaluation starts from zero (ok={init_ok}), steps through _evaluate_model_step with the client\'s '
            f'batch (ok={step_ok}) and finishes with result() (ok={fin_ok})')
